@@ -328,6 +328,10 @@ def npFlattenLL (a : List (List Int)) : List Int × List Int :=
 def npUnflattenLL (v : List Int) (limits : List Int) : List (List Int) :=
   pySlice (npSplit v limits) none (some (-1))
 
+/-- `array.reshape(data_shape)` back to the 1-d shape recorded by `_flatten_data`; `ValueError` if the size changed -/
+def npReshape1 {α : Type} (v : List α) (shape : List Int) : Py (List α) :=
+  if shape = [(v.length : Int)] then .ok v else .error .value
+
 /-- `np.floor(x)` as an integer -/
 def npFloor (x : Rat) : Int := x.floor
 
